@@ -1374,7 +1374,8 @@ namespace xsimd
                     batch_type x = select(inf_result, constants::nan<batch_type>(), a);
                     batch_type q = abs(x);
 #ifndef XSIMD_NO_INFINITIES
-                    inf_result = (q == constants::infinity<batch_type>());
+                    // keep the poles found above (negative integers and zero): they yield +inf like an infinite argument
+                    inf_result = (q == constants::infinity<batch_type>()) || inf_result;
 #endif
                     auto test = (a < batch_type(-34.));
                     batch_type r = constants::nan<batch_type>();
@@ -1382,7 +1383,7 @@ namespace xsimd
                     {
                         r = large_negative(q);
                         if (all(test))
-                            return select(inf_result, constants::nan<batch_type>(), r);
+                            return select(a == constants::minusinfinity<batch_type>(), constants::nan<batch_type>(), select(inf_result, constants::infinity<batch_type>(), r));
                     }
                     // the lanes below -34 are served by large_negative(): keep them out of the recurrences of other(),
                     // whose trip count grows with the distance to 2 (and is unbounded for -inf)
